@@ -516,47 +516,57 @@ func (r *replayer) run(tp targetPkg, vecs []replayVector) (map[string]*nativeOut
 	if err := r.build(tp); err != nil {
 		return nil, err
 	}
-	// the batch is split over parallel processes (harnesses may sleep natively)
-	nchunks := runtime.NumCPU()
-	if len(vecs) < 4*nchunks {
-		nchunks = 1
-	}
-	per := (len(vecs) + nchunks - 1) / nchunks
-	var cmu sync.Mutex
-	var cwg sync.WaitGroup
-	failed := false
-	for i := 0; i < len(vecs); i += per {
-		j := i + per
-		if j > len(vecs) {
-			j = len(vecs)
+	// the batch is split over parallel processes (harnesses may sleep natively); a process that ends early (a vector
+	// hangs under the native watchdog, or the process dies) leaves vectors without outcome: they are re-chunked
+	for round := 0; round < 8 && len(vecs) > 0; round++ {
+		nchunks := runtime.NumCPU()
+		if len(vecs) < 4*nchunks {
+			nchunks = 1
 		}
-		cwg.Add(1)
-		go func(chunk []replayVector) {
-			defer cwg.Done()
-			outs, _, err := r.runBatch(tp, chunk, 10*time.Minute)
-			cmu.Lock()
-			defer cmu.Unlock()
-			if err != nil {
-				failed = true
-				return
+		if round > 0 && len(vecs) > 1 {
+			nchunks = runtime.NumCPU()
+			if nchunks > len(vecs) {
+				nchunks = len(vecs)
 			}
-			for i := range outs {
-				res[outs[i].ID] = &outs[i]
+		}
+		per := (len(vecs) + nchunks - 1) / nchunks
+		var cmu sync.Mutex
+		var cwg sync.WaitGroup
+		before := len(res)
+		for i := 0; i < len(vecs); i += per {
+			j := i + per
+			if j > len(vecs) {
+				j = len(vecs)
 			}
-		}(vecs[i:j])
+			cwg.Add(1)
+			go func(chunk []replayVector) {
+				defer cwg.Done()
+				outs, _, err := r.runBatch(tp, chunk, 10*time.Minute)
+				cmu.Lock()
+				defer cmu.Unlock()
+				if err != nil {
+					return
+				}
+				for i := range outs {
+					res[outs[i].ID] = &outs[i]
+				}
+			}(vecs[i:j])
+		}
+		cwg.Wait()
+		var rest []replayVector
+		for _, v := range vecs {
+			if res[v.ID] == nil {
+				rest = append(rest, v)
+			}
+		}
+		vecs = rest
+		if len(res) == before {
+			break // no progress: a process dies without output; identify the vectors one by one
+		}
 	}
-	cwg.Wait()
-	if !failed {
+	if len(vecs) == 0 {
 		return res, nil
 	}
-	// some process died: run the vectors that have no outcome yet one by one
-	var rest []replayVector
-	for _, v := range vecs {
-		if res[v.ID] == nil {
-			rest = append(rest, v)
-		}
-	}
-	vecs = rest
 	// bisect: individually, in parallel
 	var mu sync.Mutex
 	sem := make(chan struct{}, runtime.NumCPU())
@@ -967,6 +977,8 @@ func runCheck(mode string, args []string) {
 							mismatchNotes = append(mismatchNotes, fmt.Sprintf("%s inputs=%v: %s", p.vec.Entry, p.vec.Inputs, note))
 						}
 					}
+				} else if (p.ce.Kind == "deadlock" || p.ce.Kind == "leak") && len(p.ce.Pauses) == 0 && o.Crash != "" {
+					confirmed[p.ce] = "native run (no preemption needed): " + trunc(o.Crash, 400)
 				} else if p.ce.Kind == "deadlock" || p.ce.Kind == "leak" {
 					why, ok, err := confirmBySchedule(targets[tn], ov, p.ce, p.vec)
 					if err != nil {
